@@ -503,80 +503,70 @@ theorem rrsetToWire_canon (out : Bytes) (t : CTable) (origin : Option Name) (zc 
 def Message.canonUpdate (m : Message) (zc : Nat) : Message :=
   { m with an := m.an.map (RRset.canon zc), au := m.au.map (RRset.canon zc), ad := m.ad.map (RRset.canon zc) }
 
-theorem addItems_congr (a b : List Item) (hlen : a.length = b.length)
-    (h : ∀ i (ha : i < a.length) (hb : i < b.length) (s : RState), s.addItem a[i] = s.addItem b[i]) :
-    ∀ s : RState, s.addItems a = s.addItems b := by
-  induction a generalizing b with
-  | nil =>
+theorem SimList.append' {α : Type} {R : α → α → Prop} {a b c d : List α} (h1 : SimList R a b) (h2 : SimList R c d) :
+    SimList R (a ++ c) (b ++ d) := by
+  induction h1 with
+  | nil => exact h2
+  | cons h _ ih => exact SimList.cons h ih
+
+theorem SimList.refl' {α : Type} {R : α → α → Prop} (hR : ∀ x, R x x) (l : List α) : SimList R l l := by
+  induction l with
+  | nil => exact SimList.nil
+  | cons x xs ih => exact SimList.cons (hR x) ih
+
+theorem SimList.map_left {α β : Type} {R : β → β → Prop} (f g : α → β) (l : List α) (h : ∀ x ∈ l, R (f x) (g x)) :
+    SimList R (l.map f) (l.map g) := by
+  induction l with
+  | nil => exact SimList.nil
+  | cons x xs ih => exact SimList.cons (h x (by simp)) (ih (fun y hy => h y (by simp [hy])))
+
+/-- items that the renderer treats alike -/
+def ItemEq (x y : Item) : Prop := ∀ s : RState, s.addItem x = s.addItem y
+
+theorem addItems_congr (a b : List Item) (h : SimList ItemEq a b) : ∀ s : RState, s.addItems a = s.addItems b := by
+  induction h with
+  | nil => intro s; rfl
+  | cons hxy _ ih =>
     intro s
-    cases b with
-    | nil => rfl
-    | cons _ _ => simp at hlen
-  | cons x xs ih =>
-    intro s
-    cases b with
-    | nil => simp at hlen
-    | cons y ys =>
-      simp only [RState.addItems]
-      have h0 := h 0 (by simp) (by simp) s
-      simp only [List.getElem_cons_zero] at h0
-      rw [h0]
-      cases s.addItem y with
-      | err e => rfl
-      | tooBig s' => rfl
-      | ok s' =>
-        simp only
-        apply ih ys (by simpa using hlen)
-        intro i ha hb s2
-        have := h (i + 1) (by simp; omega) (by simp; omega) s2
-        simpa using this
+    simp only [RState.addItems]
+    rw [hxy s]
+    rename_i y _ _ _
+    cases s.addItem y with
+    | err e => rfl
+    | tooBig s' => rfl
+    | ok s' => exact ih s'
+
+theorem itemEq_canon (zc sec : Nat) (r : RRset) : ItemEq (Item.rr sec (r.canon zc)) (Item.rr sec r) := by
+  intro s
+  simp [RState.addItem, RState.addRRset, rrsetToWire_canon]
 
 /-- the UpdateMessage API's representation of the delete / prerequisite forms (`rdclass = ANY/NONE`) renders to
 exactly the same octets as the parser's representation (`deleting = ANY/NONE`, zone class) -/
 theorem toWire_canonUpdate (m : Message) (zc lim : Nat) (pt : Bool) : (m.canonUpdate zc).toWire lim pt = m.toWire lim pt := by
   have hitems : ∀ s : RState, s.addItems (m.canonUpdate zc).items = s.addItems m.items := by
     apply addItems_congr
-    · simp [Message.items, Message.canonUpdate]
-    · intro i ha hb s
-      simp only [Message.items, Message.canonUpdate, List.map_map] at ha hb ⊢
-      by_cases h0 : i < m.q.length
-      · simp [List.getElem_append, h0]
-      · simp only [List.getElem_append, List.length_append, List.length_map, h0, dite_false]
-        split
-        · split
-          · split
-            · simp [h0] at *
-            · simp [RState.addItem, RState.addRRset, rrsetToWire_canon]
-          · simp [RState.addItem, RState.addRRset, rrsetToWire_canon]
-        · simp [RState.addItem, RState.addRRset, rrsetToWire_canon]
-  unfold Message.toWire Message.render
+    simp only [Message.items, Message.canonUpdate, List.map_map]
+    refine SimList.append' (SimList.append' (SimList.append' (SimList.refl' (fun x s => rfl) _) ?_) ?_) ?_
+    · exact SimList.map_left _ _ _ (fun r _ => itemEq_canon zc 1 r)
+    · exact SimList.map_left _ _ _ (fun r _ => itemEq_canon zc 2 r)
+    · exact SimList.map_left _ _ _ (fun r _ => itemEq_canon zc 3 r)
   have e1 : (m.canonUpdate zc).tsigReserve = m.tsigReserve := rfl
   have e2 : (m.canonUpdate zc).optReserve = m.optReserve := rfl
-  rw [e1, e2]
+  have e3 : (m.canonUpdate zc).requestPayload = m.requestPayload := rfl
+  rw [toWire_eq, toWire_eq, e1, e2, e3]
   cases m.tsigReserve with
   | error e => rfl
   | ok b =>
     simp only
-    have e3 : (m.canonUpdate zc).renderSections (clampSize lim (m.canonUpdate zc).requestPayload) pt m.optReserve b
-        = m.renderSections (clampSize lim m.requestPayload) pt m.optReserve b := by
-      unfold Message.renderSections
-      have : (m.canonUpdate zc).requestPayload = m.requestPayload := rfl
-      rw [this]
-      show (match (RState.init m.id m.flags _ m.origin).reserve m.optReserve with
-        | .error e => .error e
-        | .ok r => match r.reserve b with
-          | .error e => .error e
-          | .ok r => match r.addItems (m.canonUpdate zc).items with
-            | .error e => .error e
-            | .ok (r, big) => r.afterItems big pt) = _
-      cases (RState.init m.id m.flags (clampSize lim m.requestPayload) m.origin).reserve m.optReserve with
-      | error e => rfl
-      | ok r =>
-        simp only
-        cases r.reserve b with
-        | error e => rfl
-        | ok r2 => simp only; rw [hitems]
-    rw [e3]
-    rfl
+    rw [renderSections_eq, renderSections_eq]
+    have e4 : (m.canonUpdate zc).base (clampSize lim m.requestPayload) m.optReserve b
+        = m.base (clampSize lim m.requestPayload) m.optReserve b := rfl
+    rw [e4]
+    cases m.base (clampSize lim m.requestPayload) m.optReserve b with
+    | error e => rfl
+    | ok r =>
+      simp only
+      rw [hitems]
+      rfl
 
 end Model
